@@ -71,6 +71,10 @@ type Scenario struct {
 	Waiters      int     `json:"waiters"`       // blocked Lock calls
 	WaitTimeout  int32   `json:"wait_timeout"`  // of the blocked calls, 0 = none
 	Workers      int     `json:"workers"`       // inflight: gRPC request loops
+	// further signals sent while the shutdown that the first one started is in progress (an impatient operator, a
+	// supervisor that keeps signalling): each AfterUs microseconds after the FIRST signal. They must be absorbed.
+	ExtraSignals []ExtraSignal `json:"extra_signals,omitempty"`
+	Conns        int           `json:"conns,omitempty"` // many_idle: idle gRPC connections (the network stop takes measurable time)
 	// grpc_stalled: what the raw connection to the gRPC port has sent: nothing | preface | half-preface
 	Variant string `json:"variant,omitempty"`
 	Preload int    `json:"preload"`  // holds of an earlier run: written to the state file with the tree's own store before the first start
@@ -79,6 +83,19 @@ type Scenario struct {
 	// pause after the listeners are up: main() installs its signal handler only after net.Run has logged that the
 	// servers are started, so a signal sent right then would meet the default disposition (default 30)
 	SettleMs int `json:"settle_ms"`
+}
+
+type ExtraSignal struct {
+	Signal  string `json:"signal"` // INT | TERM | QUIT
+	AfterUs int    `json:"after_us"`
+}
+
+// ExtraSent: what became of one further signal
+type ExtraSent struct {
+	Signal    string `json:"signal"`
+	AfterUs   int    `json:"after_us"`
+	SentUs    int64  `json:"sent_us"`    // actual offset from the first signal
+	WhileLive bool   `json:"while_live"` // the process had not exited yet when it was sent
 }
 
 type Hold struct {
@@ -204,21 +221,22 @@ func (sc *stalledConn) finish(signalAt time.Time, wait time.Duration) Stalled {
 }
 
 type ProcObs struct {
-	Started    bool     `json:"started"`
-	StartErr   string   `json:"start_err,omitempty"`
-	Attempts   int      `json:"attempts"`
-	Args       []string `json:"args,omitempty"`
-	SignalSent string   `json:"signal_sent,omitempty"`
-	Exited     bool     `json:"exited"`
-	ExitCode   int      `json:"exit_code"`
-	KilledBy   string   `json:"killed_by,omitempty"` // the process died of a signal
-	ExitMs     float64  `json:"exit_ms"`             // signal -> exit
-	Hung       bool     `json:"hung"`                // still running at the watchdog; aborted by the driver
-	HangDump   string   `json:"hang_dump,omitempty"` // goroutine dump obtained with SIGABRT after the hang
-	DiedEarly  bool     `json:"died_early"`          // exited before the signal was sent
-	Bad        []string `json:"bad_output,omitempty"`
-	OutputTail string   `json:"output_tail,omitempty"`
-	SocketLeft bool     `json:"ipc_socket_left"`
+	Started    bool        `json:"started"`
+	StartErr   string      `json:"start_err,omitempty"`
+	Attempts   int         `json:"attempts"`
+	Args       []string    `json:"args,omitempty"`
+	SignalSent string      `json:"signal_sent,omitempty"`
+	Exited     bool        `json:"exited"`
+	ExitCode   int         `json:"exit_code"`
+	KilledBy   string      `json:"killed_by,omitempty"` // the process died of a signal
+	ExitMs     float64     `json:"exit_ms"`             // signal -> exit
+	Hung       bool        `json:"hung"`                // still running at the watchdog; aborted by the driver
+	HangDump   string      `json:"hang_dump,omitempty"` // goroutine dump obtained with SIGABRT after the hang
+	DiedEarly  bool        `json:"died_early"`          // exited before the signal was sent
+	Bad        []string    `json:"bad_output,omitempty"`
+	OutputTail string      `json:"output_tail,omitempty"`
+	SocketLeft bool        `json:"ipc_socket_left"`
+	Extra      []ExtraSent `json:"extra_signals_sent,omitempty"`
 	// died of the very signal that was sent and never logged that it is shutting down: the signal may have arrived
 	// before main() had installed its handler (checks/c11.py repeats such a scenario with a long settle pause)
 	HandlerRaceSuspect bool `json:"handler_race_suspect,omitempty"`
@@ -259,12 +277,14 @@ type RestartObs struct {
 	Attempted  bool     `json:"attempted"`
 	Proc       ProcObs  `json:"proc"`
 	IpcListing []string `json:"ipc_listing"`
-	IpcTotal   int      `json:"ipc_listing_total"`
-	BinTotal   int      `json:"lockbin_listing_total"`
-	IpcErr     string   `json:"ipc_err,omitempty"`
-	BinListing []string `json:"lockbin_listing,omitempty"`
-	BinErr     string   `json:"lockbin_err,omitempty"`
-	Probes     []Probe  `json:"probes"`
+	// the next start refused to run because the first run's IPC socket file was still there (its error text)
+	SocketBlocked string   `json:"socket_blocked,omitempty"`
+	IpcTotal      int      `json:"ipc_listing_total"`
+	BinTotal      int      `json:"lockbin_listing_total"`
+	IpcErr        string   `json:"ipc_err,omitempty"`
+	BinListing    []string `json:"lockbin_listing,omitempty"`
+	BinErr        string   `json:"lockbin_err,omitempty"`
+	Probes        []Probe  `json:"probes"`
 }
 
 type InflightObs struct {
@@ -397,7 +417,7 @@ func freeAddr() (string, error) {
 	return l.Addr().String(), nil
 }
 
-var badRe = regexp.MustCompile(`(?i)panic|fatal error|goroutine \d+ \[|SIGSEGV|runtime error|unexpected signal|concurrent map`)
+var badRe = regexp.MustCompile(`(?i)panic|fatal error|goroutine \d+ (gp=\S+ )?(m=\S+ )?(mp=\S+ )?\[|SIGSEGV|SIGQUIT: quit|runtime error|unexpected signal|concurrent map`)
 
 func scanBad(out string) []string {
 	var bad []string
@@ -492,8 +512,8 @@ func startServer(s *serverSpec, obs *ProcObs, settle time.Duration) *proc {
 				s.restAddr = r
 			}
 		}
-		if s.sock != "" {
-			_ = os.Remove(s.sock) // left behind by a child of an earlier attempt that was killed
+		if s.sock != "" && attempt > 1 {
+			_ = os.Remove(s.sock) // left behind by the child of the earlier attempt, which the driver killed
 		}
 		args := s.args()
 		obs.Args = args
@@ -588,21 +608,46 @@ func sigName(s syscall.Signal) string {
 }
 
 func sigOf(name string) syscall.Signal {
-	if name == "TERM" {
+	switch name {
+	case "TERM":
 		return syscall.SIGTERM
+	case "QUIT":
+		return syscall.SIGQUIT
 	}
 	return syscall.SIGINT
 }
 
 // stop sends the signal and waits for the exit; a process that is still there after the watchdog is aborted
 // (SIGABRT: the Go runtime prints all goroutines) and then killed.
-func stop(p *proc, sig string, limit time.Duration, obs *ProcObs) (signalAt time.Time) {
+func stop(p *proc, sig string, extras []ExtraSignal, limit time.Duration, obs *ProcObs) (signalAt time.Time) {
 	if p.exited() {
 		obs.DiedEarly = true
 	}
 	signalAt = time.Now()
 	_ = p.cmd.Process.Signal(sigOf(sig))
 	obs.SignalSent = "SIG" + sig
+	extraDone := make(chan []ExtraSent, 1)
+	go func() {
+		var sent []ExtraSent
+		for _, e := range extras {
+			at := signalAt.Add(time.Duration(e.AfterUs) * time.Microsecond)
+			if d := time.Until(at) - 150*time.Microsecond; d > 0 {
+				select {
+				case <-p.done:
+				case <-time.After(d):
+				}
+			}
+			for time.Now().Before(at) && !p.exited() { // the last stretch is spun: timers are too coarse for 200 us
+			}
+			live := !p.exited()
+			if live {
+				_ = p.cmd.Process.Signal(sigOf(e.Signal))
+			}
+			sent = append(sent, ExtraSent{Signal: e.Signal, AfterUs: e.AfterUs, SentUs: time.Since(signalAt).Microseconds(), WhileLive: live})
+		}
+		extraDone <- sent
+	}()
+	defer func() { obs.Extra = <-extraDone }()
 	watchdog := limit + 3*time.Second
 	select {
 	case <-p.done:
@@ -1146,6 +1191,36 @@ func runScenario(sc Scenario, e env) (res Result) {
 	case "none":
 	case "idle":
 		newGrpc()
+	case "many_idle":
+		// many connected clients: the network stop has many transports to close, the shutdown takes measurable time
+		g := newGrpc()
+		if g == nil {
+			break
+		}
+		for i := 0; i < sc.NLocks; i++ {
+			grpcHold(g, fmt.Sprintf("h%d", i), lt(i), i%2 == 1)
+		}
+		n := sc.Conns
+		if n <= 0 {
+			n = 100
+		}
+		var wg sync.WaitGroup
+		var cmu sync.Mutex
+		for i := 0; i < n; i++ {
+			wg.Add(1)
+			go func() {
+				defer wg.Done()
+				c, err := dialGrpc(spec.grpcAddr)
+				cmu.Lock()
+				defer cmu.Unlock()
+				if err != nil {
+					setupFail("%v", err)
+					return
+				}
+				closers = append(closers, c.close)
+			}()
+		}
+		wg.Wait()
 	case "holds", "blocked", "blocked_wt", "mixed":
 		g := newGrpc()
 		if g == nil {
@@ -1345,7 +1420,7 @@ func runScenario(sc Scenario, e env) (res Result) {
 		infl.atSignal.Store(infl.inflight.Load())
 		infl.signalAt.Store(time.Now().UnixMicro())
 	}
-	signalAt := stop(p, sc.Signal, limit, &res.Run1)
+	signalAt := stop(p, sc.Signal, sc.ExtraSignals, limit, &res.Run1)
 	if spec.sock != "" {
 		if _, err := os.Lstat(spec.sock); err == nil {
 			res.Run1.SocketLeft = true
@@ -1417,10 +1492,18 @@ func runScenario(sc Scenario, e env) (res Result) {
 	if res.Run1.Exited || res.Run1.Hung {
 		res.Restart.Attempted = true
 		spec.fixedPorts = true
-		if spec.sock != "" {
-			_ = os.Remove(spec.sock) // a crashed first run leaves it; the restart is judged on its own
+		if spec.sock != "" && res.Run1.Hung {
+			_ = os.Remove(spec.sock) // the driver killed the hung first run: the file is the driver's doing
 		}
 		p2 := startServer(spec, &res.Restart.Proc, settle)
+		if p2 == nil && spec.sock != "" && strings.Contains(res.Restart.Proc.StartErr, "socket file already exists") {
+			// the first run left its IPC socket file behind and the next start refuses to run: recorded (restart_up);
+			// the file is then removed so that what the next start restores can still be looked at
+			res.Restart.SocketBlocked = tail(res.Restart.Proc.StartErr, 500)
+			_ = os.Remove(spec.sock)
+			res.Restart.Proc = ProcObs{}
+			p2 = startServer(spec, &res.Restart.Proc, settle)
+		}
 		if p2 != nil {
 			procs = append(procs, p2)
 			if spec.sock != "" {
@@ -1443,7 +1526,7 @@ func runScenario(sc Scenario, e env) (res Result) {
 				// no holds to look at: still leave a connected client for the second shutdown
 				defer g.close()
 			}
-			stop(p2, sc.Signal, limit, &res.Restart.Proc)
+			stop(p2, sc.Signal, sc.ExtraSignals, limit, &res.Restart.Proc)
 			if spec.sock != "" {
 				if _, err := os.Lstat(spec.sock); err == nil {
 					res.Restart.Proc.SocketLeft = true
@@ -1819,7 +1902,7 @@ func judge(res *Result, must, mustNot []Hold, limit time.Duration) {
 		}
 	}
 	if res.HarnessErr != "" || !res.Run1.Started || res.Run1.BindFailure || res.Restart.Proc.BindFailure {
-		for _, k := range []string{"exit0", "prompt", "nopanic", "blocked_error", "no_hang", "file_keeps", "file_drops_unlocked", "restart_up", "restart_lists", "restart_refuses", "restart_unlock"} {
+		for _, k := range []string{"exit0", "prompt", "nopanic", "socket_gone", "blocked_error", "no_hang", "file_keeps", "file_drops_unlocked", "restart_up", "restart_lists", "restart_refuses", "restart_unlock"} {
 			v[k] = "n/a"
 		}
 		return
@@ -1847,6 +1930,13 @@ func judge(res *Result, must, mustNot []Hold, limit time.Duration) {
 			fail("nopanic", "%s: output has %q", tag, o.Bad[0])
 		} else {
 			pass("nopanic")
+		}
+		if !sc.Ipc {
+			v["socket_gone"] = "n/a"
+		} else if o.SocketLeft && !o.Hung {
+			fail("socket_gone", "%s: the IPC socket file is still there after the exit (status %d %s)", tag, o.ExitCode, o.KilledBy)
+		} else if !o.Hung {
+			pass("socket_gone")
 		}
 	}
 	procClauses("first run", &res.Run1)
@@ -1939,6 +2029,8 @@ func judge(res *Result, must, mustNot []Hold, limit time.Duration) {
 	rs := &res.Restart
 	if !rs.Attempted {
 		v["restart_up"] = "n/a"
+	} else if rs.SocketBlocked != "" && !rs.Proc.Started {
+		fail("restart_up", "the next start refuses to run because the first run left its IPC socket file behind: %s", tail(rs.SocketBlocked, 300))
 	} else if !rs.Proc.Started {
 		fail("restart_up", "the next start on the same state file and ports failed: %s", tail(rs.Proc.StartErr, 400))
 		for _, k := range []string{"restart_lists", "restart_refuses", "restart_unlock"} {
@@ -1947,6 +2039,9 @@ func judge(res *Result, must, mustNot []Hold, limit time.Duration) {
 			}
 		}
 	} else {
+		if rs.SocketBlocked != "" {
+			fail("restart_up", "the next start refuses to run because the first run left its IPC socket file behind: %s", tail(rs.SocketBlocked, 300))
+		}
 		pass("restart_up")
 		procClauses("second run", &rs.Proc)
 		if sc.StateFile {
